@@ -2,5 +2,4 @@ package main
 
 import "verifharness/internal/out"
 
-func runRegex(w *out.W, tier string) {}
-func runSpec(w *out.W, tier string)  {}
+func runSpec(w *out.W, tier string) {}
